@@ -55,6 +55,56 @@ func verifC05BS(b balancedBlockState) string {
 	return fmt.Sprintf("%d,%d,%d,%d", b.needed, b.unneeded, b.pulling, u)
 }
 
+// verifC05Services builds the keep services and their mounts from the <services> field.
+func verifC05Services(bal *Balancer, spec string) (srvs []*KeepService, all [][]*KeepMount, ok bool) {
+	if spec != "-" {
+		for si, s := range strings.Split(spec, ";") {
+			p := strings.Split(s, "/")
+			if len(p) != 3 || !verifC05UUID.MatchString(p[0]) || (p[1] != "0" && p[1] != "1") || bal.KeepServices[p[0]] != nil {
+				return nil, nil, false
+			}
+			srv := &KeepService{KeepService: arvados.KeepService{
+				UUID:        p[0],
+				ServiceHost: fmt.Sprintf("keep%d.example", si),
+				ServicePort: 25107,
+				ServiceType: "disk",
+				ReadOnly:    p[1] == "1",
+			}, ChangeSet: &ChangeSet{}}
+			if p[2] != "-" {
+				for mi, m := range strings.Split(p[2], "|") {
+					q := strings.Split(m, ",")
+					if len(q) != 4 || (q[0] != "-" && !verifC05Dev.MatchString(q[0])) || (q[1] != "0" && q[1] != "1") || !verifC05Int.MatchString(q[2]) {
+						return nil, nil, false
+					}
+					repl, _ := strconv.Atoi(q[2])
+					km := arvados.KeepMount{UUID: verifC05MountUUID(si, mi), ReadOnly: q[1] == "1", Replication: repl}
+					if q[0] != "-" {
+						km.DeviceID = q[0]
+					}
+					if q[3] != "-" {
+						km.StorageClasses = map[string]bool{}
+						for _, c := range strings.Split(q[3], "+") {
+							if !verifC05Class.MatchString(c) {
+								return nil, nil, false
+							}
+							name := strings.TrimSuffix(c, "!")
+							if _, dup := km.StorageClasses[name]; dup {
+								return nil, nil, false
+							}
+							km.StorageClasses[name] = !strings.HasSuffix(c, "!")
+						}
+					}
+					srv.mounts = append(srv.mounts, &KeepMount{KeepMount: km, KeepService: srv})
+				}
+			}
+			srvs = append(srvs, srv)
+			all = append(all, append([]*KeepMount(nil), srv.mounts...))
+			bal.KeepServices[srv.UUID] = srv
+		}
+	}
+	return srvs, all, true
+}
+
 func verifC05Run(f []string) (out string) {
 	defer func() {
 		if r := recover(); r != nil {
@@ -68,52 +118,9 @@ func verifC05Run(f []string) (out string) {
 	logger := logrus.New()
 	logger.Out = ioutil.Discard
 	bal := &Balancer{Logger: logger, KeepServices: map[string]*KeepService{}, MinMtime: minMtime}
-	var srvs []*KeepService
-	var all [][]*KeepMount
-	if f[3] != "-" {
-		for si, s := range strings.Split(f[3], ";") {
-			p := strings.Split(s, "/")
-			if len(p) != 3 || !verifC05UUID.MatchString(p[0]) || (p[1] != "0" && p[1] != "1") || bal.KeepServices[p[0]] != nil {
-				return "bad-op"
-			}
-			srv := &KeepService{KeepService: arvados.KeepService{
-				UUID:        p[0],
-				ServiceHost: fmt.Sprintf("keep%d.example", si),
-				ServicePort: 25107,
-				ServiceType: "disk",
-				ReadOnly:    p[1] == "1",
-			}, ChangeSet: &ChangeSet{}}
-			if p[2] != "-" {
-				for mi, m := range strings.Split(p[2], "|") {
-					q := strings.Split(m, ",")
-					if len(q) != 4 || (q[0] != "-" && !verifC05Dev.MatchString(q[0])) || (q[1] != "0" && q[1] != "1") || !verifC05Int.MatchString(q[2]) {
-						return "bad-op"
-					}
-					repl, _ := strconv.Atoi(q[2])
-					km := arvados.KeepMount{UUID: verifC05MountUUID(si, mi), ReadOnly: q[1] == "1", Replication: repl}
-					if q[0] != "-" {
-						km.DeviceID = q[0]
-					}
-					if q[3] != "-" {
-						km.StorageClasses = map[string]bool{}
-						for _, c := range strings.Split(q[3], "+") {
-							if !verifC05Class.MatchString(c) {
-								return "bad-op"
-							}
-							name := strings.TrimSuffix(c, "!")
-							if _, dup := km.StorageClasses[name]; dup {
-								return "bad-op"
-							}
-							km.StorageClasses[name] = !strings.HasSuffix(c, "!")
-						}
-					}
-					srv.mounts = append(srv.mounts, &KeepMount{KeepMount: km, KeepService: srv})
-				}
-			}
-			srvs = append(srvs, srv)
-			all = append(all, append([]*KeepMount(nil), srv.mounts...))
-			bal.KeepServices[srv.UUID] = srv
-		}
+	srvs, all, ok := verifC05Services(bal, f[3])
+	if !ok {
+		return "bad-op"
 	}
 	blk := &BlockState{Desired: map[string]int{}}
 	if f[4] != "-" {
@@ -232,6 +239,11 @@ func TestVerifC05(t *testing.T) {
 	sc := bufio.NewScanner(in)
 	sc.Buffer(make([]byte, 1<<20), 1<<26)
 	for sc.Scan() {
-		fmt.Fprintln(w, verifC05Run(strings.Split(sc.Text(), " ")))
+		f := strings.Split(sc.Text(), " ")
+		if len(f) > 0 && f[0] == "cs" {
+			fmt.Fprintln(w, verifC05RunCS(f))
+		} else {
+			fmt.Fprintln(w, verifC05Run(f))
+		}
 	}
 }
